@@ -448,7 +448,7 @@ func (e *engEnv) top(sentence bool) string {
 func newEngEnv(t *Term) *engEnv {
 	raw := t.Args[2].Bytes()
 	offset := t.Args[3].Int()
-	f := text.NewFile("f", raw)
+	f := loadFile("f", raw, variantOf(raw, offset)) // NewFile, ReadFile from disk, placed once or twice
 	// a reader may be created before its file is placed in a file set (FileSet.AddFile assigns the base
 	// offset afterwards, as in the library's own JSON benchmark): every second case does so
 	var early *text.Reader
